@@ -11,6 +11,7 @@ Theorems about `B6.Model.Avl` (the model of `search/tree.go`) against `B6.Spec.S
   `Inv` (search-tree order ∧ stored balance = height difference ∧ |balance| ≤ 1) and changes the
   in-order contents exactly like the sorted-map `insert` / `erase`; `retrace_flags` — the "continue
   retracing" flags are exactly "one level higher / lower".
+* `height_bound` — `Bal` forces height ≤ 2·log₂(n+1).
 * `ops_inv` — lifted over every edit history from the empty list; includes `Len()`.
 * `next_spec`, `advance_spec` — what `Next` / `Advance` do from ANY iterator state over ANY current
   tree (fresh, on a live node, on a node deleted since, on a node deleted and re-inserted, exhausted);
@@ -19,6 +20,8 @@ Theorems about `B6.Model.Avl` (the model of `search/tree.go`) against `B6.Spec.S
   accepted by `B6.Spec.IterClauses.clause` (the predicate the driver evaluates on the Go answers) and the
   list stays a valid AVL tree; `trace_step` also shows no call panics; `sim_world` ties the step function
   of the theorem to `World.step`, the one the driver runs.
+* `index_add_inv`, `index_remove_inv` — `TreeIndex.Add/Remove` with any token list keep the token tree and
+  every per-token list valid (each of those lists is a `treeList`, so the theorems above apply to it).
 -/
 namespace B6.Props.C07
 open B6.Model.Avl B6.Model.Avl.Tree B6.Spec B6.Lemmas.Avl B6.Spec.IterClauses
@@ -71,6 +74,26 @@ theorem retrace_flags (t : Tree α) (k : Nat) (p : α) (h : Inv t) :
   · intro t' s f e
     obtain ⟨t2, s2, f2, e2, _, hh⟩ := del_bal t k h.2
     rw [e2] at e; simp at e; obtain ⟨rfl, rfl, rfl⟩ := e; exact hh
+
+/-- "balanced" in numbers: a tree satisfying `Bal` with `n` values has height at most `2·log₂(n+1)`. -/
+theorem height_bound (t : Tree α) (h : Bal t) : 2 ^ (height t / 2) ≤ (toList t).length + 1 := by
+  induction t with
+  | nil => simp [height, toList]
+  | node l k p b r ihl ihr =>
+    obtain ⟨hl, hr, hb, h1, h2⟩ := h
+    have il := ihl hl
+    have ir := ihr hr
+    simp only [height, toList, List.length_append, List.length_cons]
+    have m1 : (max (height l) (height r) + 1) / 2 ≤ height l / 2 + 1 := by omega
+    have m2 : (max (height l) (height r) + 1) / 2 ≤ height r / 2 + 1 := by omega
+    have p1 : 2 ^ ((max (height l) (height r) + 1) / 2) ≤ 2 ^ (height l / 2 + 1) :=
+      Nat.pow_le_pow_right (by omega) m1
+    have p2 : 2 ^ ((max (height l) (height r) + 1) / 2) ≤ 2 ^ (height r / 2 + 1) :=
+      Nat.pow_le_pow_right (by omega) m2
+    rw [Nat.pow_succ] at p1 p2
+    omega
+
+example : Bal (node (node nil 1 () 0 nil) 2 () 1 (node (node nil 3 () 0 nil) 4 () (-1) nil)) := by decide
 
 /-! ## treeList: the root pointer and the `length` counter -/
 
@@ -1094,6 +1117,170 @@ theorem sim_world (s : Sim α) (op : Op α) :
     cases s.its[i]? with
     | none => rfl
     | some q => obtain ⟨it, c⟩ := q; simp [List.map_set]
+
+
+/-! ## TreeIndex: the token tree and every per-token list stay valid -/
+
+theorem lookup_mem {t : Tree α} {k : Nat} {v : α} (h : t.lookup k = some v) : (k, v) ∈ toList t := by
+  induction t with
+  | nil => simp [Tree.lookup] at h
+  | node l x xp b r ihl ihr =>
+    unfold Tree.lookup at h
+    simp only [toList, List.mem_append, List.mem_cons]
+    split at h
+    · exact Or.inr (Or.inr (ihr h))
+    · split at h
+      · exact Or.inl (ihl h)
+      · simp at h; subst h
+        have : x = k := by omega
+        subst this
+        exact Or.inr (Or.inl rfl)
+
+theorem update_keys (t : Tree α) (k : Nat) (f : α → α) : keys (t.update k f) = keys t := by
+  induction t with
+  | nil => rfl
+  | node l x xp b r ihl ihr =>
+    unfold Tree.update
+    split
+    · simp [keys, ihr]
+    · split <;> simp [keys, ihl]
+
+theorem update_height (t : Tree α) (k : Nat) (f : α → α) : height (t.update k f) = height t := by
+  induction t with
+  | nil => rfl
+  | node l x xp b r ihl ihr =>
+    unfold Tree.update
+    split
+    · simp [height, ihr]
+    · split <;> simp [height, ihl]
+
+theorem update_inv (t : Tree α) (k : Nat) (f : α → α) (h : Inv t) : Inv (t.update k f) := by
+  obtain ⟨hbst, hbal⟩ := h
+  constructor
+  · induction t with
+    | nil => trivial
+    | node l x xp b r ihl ihr =>
+      obtain ⟨h1, h2, h3, h4⟩ := hbst
+      unfold Tree.update
+      split
+      · exact ⟨h1, ihr h2 hbal.2.1, h3, by rw [update_keys]; exact h4⟩
+      · split
+        · exact ⟨ihl h1 hbal.1, h2, by rw [update_keys]; exact h3, h4⟩
+        · exact ⟨h1, h2, h3, h4⟩
+  · induction t with
+    | nil => trivial
+    | node l x xp b r ihl ihr =>
+      obtain ⟨h1, h2, h3, h4, h5⟩ := hbal
+      unfold Tree.update
+      split
+      · exact ⟨h1, ihr hbst.2.1 h2, by rw [update_height]; exact h3, h4, h5⟩
+      · split
+        · exact ⟨ihl hbst.1 h1, h2, by rw [update_height]; exact h3, h4, h5⟩
+        · exact ⟨h1, h2, h3, h4, h5⟩
+
+theorem update_mem (t : Tree α) (k : Nat) (f : α → α) (e : Nat × α) (h : e ∈ toList (t.update k f)) :
+    e ∈ toList t ∨ ∃ v, (k, v) ∈ toList t ∧ e = (k, f v) := by
+  induction t with
+  | nil => simp [Tree.update, toList] at h
+  | node l x xp b r ihl ihr =>
+    unfold Tree.update at h
+    simp only [toList, List.mem_append, List.mem_cons]
+    split at h
+    · simp only [toList, List.mem_append, List.mem_cons] at h
+      rcases h with h | h | h
+      · exact Or.inl (Or.inl h)
+      · exact Or.inl (Or.inr (Or.inl h))
+      · rcases ihr h with h | ⟨v, hv, he⟩
+        · exact Or.inl (Or.inr (Or.inr h))
+        · exact Or.inr ⟨v, Or.inr (Or.inr hv), he⟩
+    · split at h
+      · simp only [toList, List.mem_append, List.mem_cons] at h
+        rcases h with h | h | h
+        · rcases ihl h with h | ⟨v, hv, he⟩
+          · exact Or.inl (Or.inl h)
+          · exact Or.inr ⟨v, Or.inl hv, he⟩
+        · exact Or.inl (Or.inr (Or.inl h))
+        · exact Or.inl (Or.inr (Or.inr h))
+      · have hx : x = k := by omega
+        subst hx
+        simp only [toList, List.mem_append, List.mem_cons] at h
+        rcases h with h | h | h
+        · exact Or.inl (Or.inl h)
+        · exact Or.inr ⟨xp, Or.inr (Or.inl rfl), h⟩
+        · exact Or.inl (Or.inr (Or.inr h))
+
+theorem update_length (t : Tree α) (k : Nat) (f : α → α) :
+    (toList (t.update k f)).length = (toList t).length := by
+  induction t with
+  | nil => rfl
+  | node l x xp b r ihl ihr =>
+    unfold Tree.update
+    split
+    · simp [toList, ihr]
+    · split <;> simp [toList, ihl]
+
+/-- a `TreeIndex` is well formed when its token list is, and so is the value list of every token -/
+def IndexWF (ix : Index) : Prop := WF ix.lists ∧ ∀ e ∈ toList ix.lists.root, WF e.2
+
+theorem indexwf_empty : IndexWF Index.empty := ⟨wf_empty, by simp [Index.empty, TreeList.empty, toList]⟩
+
+theorem indexwf_update (ix : Index) (tok : Nat) (lst' : TreeList Nat) (h : IndexWF ix)
+    (hl : WF lst') :
+    IndexWF ⟨{ ix.lists with root := ix.lists.root.update tok (fun _ => lst') }⟩ := by
+  obtain ⟨⟨hi, hlen⟩, hall⟩ := h
+  refine ⟨⟨update_inv _ _ _ hi, ?_⟩, ?_⟩
+  · simp only; rw [update_length]; exact hlen
+  · intro e he
+    rcases update_mem _ _ _ e he with h | ⟨v, _, rfl⟩
+    · exact hall e h
+    · exact hl
+
+/-- **`TreeIndex.Add(v, tokens)`** for any token list: no panic, and the token tree and all value lists
+are still valid AVL trees with correct lengths. -/
+theorem index_add_inv (ix : Index) (k g : Nat) (toks : List Nat) (h : IndexWF ix) :
+    ∃ ix', ix.add k g toks = some ix' ∧ IndexWF ix' := by
+  induction toks generalizing ix with
+  | nil => exact ⟨ix, rfl, h⟩
+  | cons tok rest ih =>
+    unfold Index.add
+    cases hlk : ix.lists.root.lookup tok with
+    | some lst =>
+      have hw : WF lst := h.2 (tok, lst) (lookup_mem hlk)
+      obtain ⟨lst', e, hw', _⟩ := treelist_insert lst k g hw
+      simp only [e]
+      exact ih _ (indexwf_update ix tok lst' h hw')
+    | none =>
+      obtain ⟨lst', e, hw', _⟩ := treelist_insert (TreeList.empty : TreeList Nat) k g wf_empty
+      simp only [e]
+      obtain ⟨ls, e2, hw2, hl2⟩ := treelist_insert ix.lists tok lst' h.1
+      simp only [e2]
+      refine ih ⟨ls⟩ ⟨hw2, ?_⟩
+      intro en hen
+      have hen' : en ∈ ls.toList := hen
+      rw [hl2] at hen'
+      rcases SM.mem_insert _ _ _ _ hen' with rfl | hm
+      · exact hw'
+      · exact h.2 en hm
+
+/-- **`TreeIndex.Remove(v, tokens)`** likewise (tokens that are unknown are skipped, token entries are
+never removed). -/
+theorem index_remove_inv (ix : Index) (k : Nat) (toks : List Nat) (h : IndexWF ix) :
+    ∃ ix', ix.remove k toks = some ix' ∧ IndexWF ix' := by
+  induction toks generalizing ix with
+  | nil => exact ⟨ix, rfl, h⟩
+  | cons tok rest ih =>
+    unfold Index.remove
+    cases hlk : ix.lists.root.lookup tok with
+    | some lst =>
+      have hw : WF lst := h.2 (tok, lst) (lookup_mem hlk)
+      obtain ⟨lst', f, e, hw', _⟩ := treelist_delete lst k hw
+      simp only [e]
+      exact ih _ (indexwf_update ix tok lst' h hw')
+    | none => exact ih ix h
+
+example : (((Index.empty.add 5 1 [2, 0, 1]).bind (·.add 3 2 [0])).bind (·.remove 5 [0, 7])).map
+    (fun ix => ix.lists.root.toList.map fun (t, l) => (t, l.toList)) =
+    some [(0, [(3, 2)]), (1, [(5, 1)]), (2, [(5, 1)])] := by decide
 
 
 end B6.Props.C07
